@@ -593,6 +593,15 @@ pub fn run(ctx: &mut Ctx) {
                 _ => b'a' + rng.gen_range(0..26u8),
             })
             .collect();
+        // every other text carries octets that are not UTF-8 (canonicalisation is defined on octets)
+        if i % 2 == 1 {
+            for _ in 0..(total / 40).max(1) {
+                let at = rng.gen_range(0..s.len());
+                if s[at] != b'\r' && s[at] != b'\n' {
+                    s[at] = [0xE9u8, 0xFF, 0x80, 0xC3, 0xEF, 0xBF, 0xBD][rng.gen_range(0..7)];
+                }
+            }
+        }
         // force CR / LF / CRLF around the edges
         for edge in [511usize, 512, 513, 1023, 1024, 8191, 8192, 8193, 16384] {
             if edge + 1 < s.len() {
@@ -711,6 +720,22 @@ pub fn run(ctx: &mut Ctx) {
                     "text signature digest unchanged after a content change",
                     json!({"family": "D", "i": i, "pos": pos, "s": hexs(&s)}),
                 );
+            }
+            // the composed entry point for detached signatures must agree with the packet-level one
+            let ver2 = RecVerifier { inner: &pubkey.primary_key, seen: Default::default(), accept_all: true };
+            let ds = pgp::composed::DetachedSignature::new(sig.clone());
+            let r2 = ctx.guarded("C14/verify-detached", || json!({"family": "D", "i": i, "variant": name}), || ds.verify(&ver2, &doc[..]));
+            ctx.eval();
+            if let Some(r2) = r2 {
+                let seen2 = ver2.take();
+                let same2 = r2.is_ok() && seen2.len() == 1 && seen2[0].digest == want;
+                if same2 != same {
+                    ctx.violation(
+                        format!("C14/verify-detached/disagrees-with-signature-verify/variant-{name}"),
+                        format!("DetachedSignature::verify says {} where Signature::verify says {} for the {name} form of a {}-octet text ({})", same2, same, doc.len(), if std::str::from_utf8(doc).is_ok() { "valid UTF-8" } else { "not UTF-8" }),
+                        json!({"family": "D", "i": i, "variant": name, "s": hexs(&s)}),
+                    );
+                }
             }
         }
         // inline verification of the same signature: the document in a literal packet (fixed length, and in
